@@ -219,7 +219,8 @@ type Sim struct {
 	UnknownCalls map[string]int
 	// fvBind maps the free variables of an inlined closure to the locals of its parent that they
 	// capture, so that the closure reads and writes the parent's cells (deferred clean-up closures).
-	fvBind map[*ssa.FreeVar]*ssa.Alloc
+	fvBind  map[*ssa.FreeVar]*ssa.Alloc
+	parBind map[*ssa.Parameter]*ssa.Alloc
 	// LoadVal may give the value read by a load an abstract value of the rule's choosing (a
 	// symbolic tag for "the configured override", ...).
 	LoadVal  func(load *ssa.UnOp) (AV, bool)
@@ -308,6 +309,31 @@ func allocTrackable(a *ssa.Alloc) bool {
 				return false
 			}
 		case *ssa.DebugRef:
+		case *ssa.Defer, *ssa.Call:
+			// the address handed to a function of the program that only reads through it (a
+			// clean-up deferred with the address of the error result)
+			ci := r.(ssa.CallInstruction)
+			callee := ci.Common().StaticCallee()
+			if callee == nil || callee.Blocks == nil || ci.Common().Value == ssa.Value(a) {
+				return false
+			}
+			for i, arg := range ci.Common().Args {
+				if arg != ssa.Value(a) {
+					continue
+				}
+				if i >= len(callee.Params) {
+					return false
+				}
+				for _, pr := range *callee.Params[i].Referrers() {
+					if ld, ok := pr.(*ssa.UnOp); ok && ld.Op == token.MUL {
+						continue
+					}
+					if _, ok := pr.(*ssa.DebugRef); ok {
+						continue
+					}
+					return false
+				}
+			}
 		case *ssa.MakeClosure:
 			// a closure that only reads the captured variable cannot change the cell
 			readOnly := false
@@ -399,6 +425,11 @@ func (s *Sim) cellOf(fn *ssa.Function, addr ssa.Value) interface{} {
 	case *ssa.FreeVar:
 		// a captured local of the parent: modelled when the closure was inlined from its MakeClosure
 		if al := s.fvBind[a]; al != nil && s.info(al.Parent()).okAllocs[al] {
+			return al
+		}
+	case *ssa.Parameter:
+		// a pointer parameter of an inlined function that was handed the address of a local of its caller
+		if al := s.parBind[a]; al != nil && s.info(al.Parent()).okAllocs[al] {
 			return al
 		}
 	}
@@ -673,6 +704,15 @@ func (s *Sim) execBlock(rc *runCtx, it workItem) []workItem {
 			}
 		case *ssa.Defer:
 			st.defers = append(st.defers, x)
+			// the arguments of a deferred call are evaluated now: keep their values until it runs
+			for _, a := range x.Call.Args {
+				if _, isAlloc := a.(*ssa.Alloc); !isAlloc {
+					if s.Pinned == nil {
+						s.Pinned = map[ssa.Value]bool{}
+					}
+					s.Pinned[a] = true
+				}
+			}
 		case *ssa.RunDefers:
 			defs := st.defers
 			st.defers = nil
@@ -1151,6 +1191,39 @@ func (p *Prog) funcValueTargets(v ssa.Value, depth int) []*ssa.Function {
 		}
 	case *ssa.ChangeType:
 		return p.funcValueTargets(x.X, depth)
+	case *ssa.Call:
+		// made by a factory function of the program whose every return is a closure of one function
+		callee := x.Call.StaticCallee()
+		if callee == nil || callee.Blocks == nil || !p.InRepo(callee) {
+			return nil
+		}
+		var made *ssa.Function
+		okAll := true
+		eachInstr(callee, func(in ssa.Instruction) {
+			ret, ok := in.(*ssa.Return)
+			if !ok {
+				return
+			}
+			if len(ret.Results) != 1 {
+				okAll = false
+				return
+			}
+			mc, ok := ret.Results[0].(*ssa.MakeClosure)
+			if !ok {
+				okAll = false
+				return
+			}
+			f, _ := mc.Fn.(*ssa.Function)
+			if f == nil || (made != nil && made != f) {
+				okAll = false
+				return
+			}
+			made = f
+		})
+		if okAll && made != nil {
+			return []*ssa.Function{made}
+		}
+		return nil
 	case *ssa.UnOp:
 		if x.Op != token.MUL {
 			return nil
@@ -1507,6 +1580,17 @@ func (s *Sim) inlineCall(it workItem, st *State, call ssa.CallInstruction, calle
 	for c, a := range st.cells {
 		if _, isAlloc := c.(*ssa.Alloc); !isAlloc {
 			entry.cells[c] = a
+		}
+	}
+	for i, a := range args {
+		if al, ok := a.(*ssa.Alloc); ok && i < len(callee.Params) && s.info(al.Parent()).okAllocs[al] {
+			if s.parBind == nil {
+				s.parBind = map[*ssa.Parameter]*ssa.Alloc{}
+			}
+			s.parBind[callee.Params[i]] = al
+			if av, have := st.cells[al]; have {
+				entry.cells[al] = av
+			}
 		}
 	}
 	if mc, ok := call.Common().Value.(*ssa.MakeClosure); ok && mc.Fn == ssa.Value(callee) {
